@@ -1,4 +1,291 @@
-import TflModel.Model.Linear
+import TflModel.Lemmas.Linear
+import Mathlib.Algebra.Order.Field.Basic
+/-!
+# C06 — Linear / categorical weight constraints enforce signs, orderings, dominance, norm
+
+Model: `Tfl.Poset` (internal_utils.py), `Tfl.Linear.project`, `Tfl.Categorical.project`
+(one unit column; units are independent columns, see C09).
+The validity of the order returned by the model of `_topological_sort` is the hypothesis
+`ValidOrder`; its decidable form `validOrder` (`validOrder_sound`) is evaluated by the driver on
+every correspondence case.
+-/
 namespace Tfl.C06
-theorem placeholder : True := trivial
+open Tfl Tfl.Poset Tfl.Linear
+
+theorem getV_map (f : Rat → Rat) (w : List Rat) {k : Nat} (hk : k < w.length) :
+    getV (w.map f) k = f (getV w k) := by
+  simp [getV, List.getD, hk]
+
+theorem clipOut_mono (lo hi : Option Rat) {x y : Rat} (h : x ≤ y) :
+    Categorical.clipOut lo hi x ≤ Categorical.clipOut lo hi y := by
+  unfold Categorical.clipOut
+  cases lo <;> cases hi <;> simp only
+  · exact h
+  · exact min_le_min h le_rfl
+  · exact max_le_max h le_rfl
+  · exact min_le_min (max_le_max h le_rfl) le_rfl
+
+theorem clipOut_bounds (lo hi : Option Rat) (hb : ∀ l h, lo = some l → hi = some h → l ≤ h) (x : Rat) :
+    (∀ l, lo = some l → l ≤ Categorical.clipOut lo hi x) ∧
+    (∀ h, hi = some h → Categorical.clipOut lo hi x ≤ h) := by
+  unfold Categorical.clipOut
+  cases lo <;> cases hi <;> simp only
+  · exact ⟨fun _ h => (by cases h), fun _ h => (by cases h)⟩
+  · exact ⟨fun _ h => (by cases h), fun h e => (by cases e; exact min_le_right _ _)⟩
+  · exact ⟨fun l e => (by cases e; exact le_max_right _ _), fun _ h => (by cases h)⟩
+  · rename_i l h
+    refine ⟨fun l' e => ?_, fun h' e => (by cases e; exact min_le_right _ _)⟩
+    cases e
+    exact le_min (le_max_right _ _) (hb l h rfl rfl)
+
+theorem clipOut_fix (lo hi : Option Rat) (x : Rat) (h1 : ∀ l, lo = some l → l ≤ x)
+    (h2 : ∀ h, hi = some h → x ≤ h) : Categorical.clipOut lo hi x = x := by
+  unfold Categorical.clipOut
+  cases lo <;> cases hi <;> simp only
+  · exact min_eq_left (h2 _ rfl)
+  · exact max_eq_left (h1 _ rfl)
+  · rw [max_eq_left (h1 _ rfl)]; exact min_eq_left (h2 _ rfl)
+
+/-- **C06 (categorical).** For every kernel column, every pair set whose modelled topological
+order is valid, and every bound configuration with `output_min ≤ output_max`, the constraint
+returns values that satisfy every ordering pair and lie within the bounds. -/
+theorem categorical_pairs_and_bounds (lo hi : Option Rat) (cs : Pairs) (w out : List Rat)
+    (order : List Nat) (hts : cs ≠ [] → topoSort cs = some order) (hv : ValidOrder cs order)
+    (hin : ∀ a ∈ order, a < w.length) (hb : ∀ l h, lo = some l → hi = some h → l ≤ h)
+    (h : Categorical.project lo hi cs w = .ok out) :
+    Feasible cs out ∧ out.length = w.length ∧
+      ∀ k, k < out.length → (∀ l, lo = some l → l ≤ getV out k) ∧ (∀ h', hi = some h' → getV out k ≤ h') := by
+  by_cases he : cs = []
+  · subst he
+    simp only [Categorical.project, List.isEmpty_nil, if_true, pure, Except.pure, bind, Except.bind,
+      Except.ok.injEq] at h
+    subst h
+    refine ⟨fun c hc => (by cases hc), (by simp), fun k hk => ?_⟩
+    rw [getV_map _ _ (by simpa using hk)]
+    exact clipOut_bounds lo hi hb _
+  · have hne : cs.isEmpty = false := by cases cs <;> simp_all
+    simp only [Categorical.project, hne, approxProject, hts he, pure, Except.pure, bind, Except.bind,
+      Bool.false_eq_true, if_false, Except.ok.injEq] at h
+    subst h
+    have hf := approxProjectWith_feasible cs order w hv hin
+    refine ⟨fun c hc => ?_, (by simp), fun k hk => ?_⟩
+    · have h1 : c.1 < (approxProjectWith cs order w).length := by
+        simpa using hin _ (hv.mem_left (i := c.1) (j := c.2) hc)
+      have h2 : c.2 < (approxProjectWith cs order w).length := by
+        simpa using hin _ (hv.mem_right (i := c.1) (j := c.2) hc)
+      rw [getV_map _ _ h1, getV_map _ _ h2]
+      exact clipOut_mono lo hi (hf c hc)
+    · rw [getV_map _ _ (by simpa using hk)]
+      exact clipOut_bounds lo hi hb _
+
+/-- **C06 (categorical), feasible ⇒ unchanged** — exactly, for every order the sort may return. -/
+theorem categorical_fixpoint (lo hi : Option Rat) (cs : Pairs) (w : List Rat) (order : List Nat)
+    (hts : cs ≠ [] → topoSort cs = some order) (hf : Feasible cs w)
+    (hlo : ∀ k, k < w.length → ∀ l, lo = some l → l ≤ getV w k)
+    (hhi : ∀ k, k < w.length → ∀ h, hi = some h → getV w k ≤ h) :
+    Categorical.project lo hi cs w = .ok w := by
+  have hmap : w.map (Categorical.clipOut lo hi) = w := by
+    apply List.ext_getElem (by simp)
+    intro k h1 h2
+    have hk : k < w.length := by simpa using h2
+    have e : w[k] = getV w k := by simp [getV, List.getD, hk]
+    rw [List.getElem_map, e]
+    exact clipOut_fix lo hi _ (hlo k hk) (hhi k hk)
+  by_cases he : cs = []
+  · subst he
+    simp [Categorical.project, pure, Except.pure, bind, Except.bind, hmap]
+  · have hne : cs.isEmpty = false := by cases cs <;> simp_all
+    simp [Categorical.project, hne, approxProject, hts he, pure, Except.pure, bind, Except.bind,
+      approxProjectWith_fix hf, hmap]
+
+/-! ### Linear: signs and monotonic dominance -/
+
+/-- the monotonic-dominance stage of `project` on a sign-clipped column: every
+`(dominant, weak)` pair satisfies `w weak ≤ w dominant`, the signs survive (all constrained
+inputs are increasing, as `verify_hyperparameters` demands), untouched inputs keep their value. -/
+theorem linear_monotonic_dominance (monos : List Int) (md : Pairs) (w : List Rat) (order : List Nat)
+    (hv : ValidOrder (swapPairs md) order) (hin : ∀ a ∈ order, a < w.length)
+    (hinc : ∀ c ∈ md, getM monos c.1 = 1 ∧ getM monos c.2 = 1) :
+    let w1 := signClip monos w
+    let out := approxProjectWith (swapPairs md) order w1
+    (∀ c ∈ md, getV out c.2 ≤ getV out c.1) ∧
+    (∀ k, SignOk (getM monos k) (getV out k)) ∧
+    (∀ k, ¬ IsNode md k → getV out k = getV w1 k) := by
+  intro w1 out
+  have hf := approxProjectWith_feasible (swapPairs md) order w1 hv
+    (by simpa [w1, length_signClip] using hin)
+  have hnode : ∀ k, IsNode (swapPairs md) k → 0 ≤ getV w1 k := by
+    intro k hk
+    obtain ⟨c, hc, hck⟩ := isNode_swap.mp hk
+    have hm : getM monos k = 1 := by
+      rcases hck with e | e
+      · rw [← e]; exact (hinc c hc).1
+      · rw [← e]; exact (hinc c hc).2
+    exact (signClip_signOk monos w k).1 hm
+  have hinv := approxProjectWith_inv (closed_ge 0) order hnode
+  refine ⟨fun c hc => hf (c.2, c.1) (mem_swapPairs.mpr hc), fun k => ?_, fun k hk => ?_⟩
+  · by_cases hk : IsNode (swapPairs md) k
+    · have h0 := hinv.2.1 k hk
+      obtain ⟨c, hc, hck⟩ := isNode_swap.mp hk
+      have hm : getM monos k = 1 := by
+        rcases hck with e | e
+        · rw [← e]; exact (hinc c hc).1
+        · rw [← e]; exact (hinc c hc).2
+      exact ⟨fun _ => h0, fun h => (by rw [hm] at h; cases h)⟩
+    · rw [show getV out k = getV w1 k from hinv.2.2 k hk]
+      exact signClip_signOk monos w k
+  · exact hinv.2.2 k (fun h => hk (isNode_swap.mp h))
+
+/-- the range-dominance stage: weights are scaled by `scalings`, projected, and un-scaled.
+For every `(dominant, weak)` pair the scaled slopes are ordered afterwards; signs survive;
+inputs outside the range-dominance pairs keep their value, **provided no scaling factor is
+zero** (a zero input range makes the real code divide by zero: finding F-C16-a). -/
+theorem linear_range_dominance (monos : List Int) (rd : Pairs) (sc w2 : List Rat) (order : List Nat)
+    (hv : ValidOrder (swapPairs rd) order) (hin : ∀ a ∈ order, a < w2.length)
+    (hlen : w2.length = sc.length) (hsc : ∀ k, k < sc.length → getV sc k ≠ 0)
+    (hdir : ∀ c ∈ rd, ∀ k, (k = c.1 ∨ k = c.2) →
+        (getM monos k = 1 ∧ 0 < getV sc k) ∨ (getM monos k = -1 ∧ getV sc k < 0))
+    (hsign : ∀ k, SignOk (getM monos k) (getV w2 k)) :
+    let out := divV (approxProjectWith (swapPairs rd) order (mulV w2 sc)) sc
+    (∀ c ∈ rd, getV sc c.2 * getV out c.2 ≤ getV sc c.1 * getV out c.1) ∧
+    (∀ k, SignOk (getM monos k) (getV out k)) ∧
+    (∀ k, ¬ IsNode rd k → getV out k = getV w2 k) := by
+  intro out
+  have hml : (mulV w2 sc).length = w2.length := by simp [mulV, hlen]
+  have hf := approxProjectWith_feasible (swapPairs rd) order (mulV w2 sc) hv (by simpa [hml] using hin)
+  have hws : ∀ k, getV (mulV w2 sc) k = getV w2 k * getV sc k :=
+    fun k => getV_zipWith (· * ·) (by simp) _ _ hlen k
+  have hnode : ∀ k, IsNode (swapPairs rd) k → 0 ≤ getV (mulV w2 sc) k := by
+    intro k hk
+    obtain ⟨c, hc, hck⟩ := isNode_swap.mp hk
+    rw [hws]
+    rcases hdir c hc k (by rcases hck with e | e <;> simp [e]) with ⟨hm, hp⟩ | ⟨hm, hn⟩
+    · exact mul_nonneg ((hsign k).1 hm) hp.le
+    · exact mul_nonneg_of_nonpos_of_nonpos ((hsign k).2 hm) hn.le
+  have hinv := approxProjectWith_inv (closed_ge 0) order hnode
+  have hout : ∀ k, getV out k = getV (approxProjectWith (swapPairs rd) order (mulV w2 sc)) k / getV sc k :=
+    fun k => getV_zipWith (· / ·) (by simp) _ _ (by simp [hml, hlen]) k
+  have hklt : ∀ c ∈ rd, ∀ k, (k = c.1 ∨ k = c.2) → k < sc.length := by
+    intro c hc k hk
+    rw [← hlen]
+    rcases hk with e | e
+    · rw [e]; exact hin _ (hv.mem_right (i := c.2) (j := c.1) (mem_swapPairs.mpr hc))
+    · rw [e]; exact hin _ (hv.mem_left (i := c.2) (j := c.1) (mem_swapPairs.mpr hc))
+  refine ⟨fun c hc => ?_, fun k => ?_, fun k hk => ?_⟩
+  · have h := hf (c.2, c.1) (mem_swapPairs.mpr hc)
+    rw [hout, hout, mul_div_cancel₀ _ (hsc _ (hklt c hc _ (Or.inr rfl))),
+      mul_div_cancel₀ _ (hsc _ (hklt c hc _ (Or.inl rfl)))]
+    exact h
+  · by_cases hk : IsNode (swapPairs rd) k
+    · have h0 := hinv.2.1 k hk
+      obtain ⟨c, hc, hck⟩ := isNode_swap.mp hk
+      rw [hout]
+      rcases hdir c hc k (by rcases hck with e | e <;> simp [e]) with ⟨hm, hp⟩ | ⟨hm, hn⟩
+      · exact ⟨fun _ => div_nonneg h0 hp.le, fun h => (by rw [hm] at h; cases h)⟩
+      · exact ⟨fun h => (by rw [hm] at h; cases h), fun _ => div_nonpos_of_nonneg_of_nonpos h0 hn.le⟩
+    · rw [hout, hinv.2.2 k hk, hws]
+      by_cases hkl : k < sc.length
+      · rw [mul_div_cancel_right₀ _ (hsc k hkl)]; exact hsign k
+      · have : getV sc k = 0 := getV_of_le (Nat.le_of_not_lt hkl)
+        rw [this]; simp
+        constructor <;> intro <;> exact le_rfl
+  · have hk' : ¬ IsNode (swapPairs rd) k := fun h => hk (isNode_swap.mp h)
+    rw [hout, hinv.2.2 k hk', hws]
+    by_cases hkl : k < sc.length
+    · exact mul_div_cancel_right₀ _ (hsc k hkl)
+    · have : getV sc k = 0 := getV_of_le (Nat.le_of_not_lt hkl)
+      have h2 : getV w2 k = 0 := getV_of_le (by rw [hlen]; exact Nat.le_of_not_lt hkl)
+      rw [this, h2]; simp
+
+/-- normalisation divides the column by a positive number: signs and every homogeneous
+inequality (dominance, scaled range dominance) are kept; with order 1 the result has norm one
+unless the column is numerically zero. -/
+theorem normalize_keeps (ord : NormOrd) (w : List Rat) :
+    ∃ n : Rat, 0 < n ∧ normalize ord w = w.map (· / n) := by
+  unfold normalize
+  cases ord
+  · exact ⟨1, by norm_num, by simp⟩
+  · simp only
+    refine ⟨if norm1 w < normEps then 1 else norm1 w, ?_, rfl⟩
+    split
+    · norm_num
+    · rename_i h; exact lt_of_lt_of_le (by norm_num [normEps]) (not_lt.mp h)
+  · exact ⟨1, by norm_num, by simp⟩
+  · simp only
+    refine ⟨if normInf w < normEps then 1 else normInf w, ?_, rfl⟩
+    split
+    · norm_num
+    · rename_i h; exact lt_of_lt_of_le (by norm_num [normEps]) (not_lt.mp h)
+
+theorem rsum_map_div (l : List Rat) (n : Rat) : rsum (l.map (· / n)) = rsum l / n := by
+  induction l with
+  | nil => simp [rsum]
+  | cons x xs ih => simp only [List.map_cons, rsum, ih]; ring
+
+/-- unit 1-norm after normalisation unless the column is below the guard -/
+theorem normalize_l1_unit (w : List Rat) (h : ¬ norm1 w < normEps) :
+    norm1 (normalize .l1 w) = 1 := by
+  have hpos : 0 < norm1 w := lt_of_lt_of_le (by norm_num [normEps]) (not_lt.mp h)
+  have e : normalize .l1 w = w.map (· / norm1 w) := by simp only [normalize, if_neg h]
+  have hc : (Rat.abs ∘ fun x => x / norm1 w) = ((· / norm1 w) ∘ Rat.abs) := by
+    funext x
+    simp only [Function.comp, ratAbs_eq]
+    rw [abs_div, abs_of_pos hpos]
+  rw [e]
+  show rsum (List.map Rat.abs (List.map (· / norm1 w) w)) = 1
+  rw [List.map_map, hc, ← List.map_map, rsum_map_div]
+  exact div_self (ne_of_gt hpos)
+
+/-- **C06 feasible ⇒ unchanged (Linear, before normalisation).** -/
+theorem linear_fixpoint (monos : List Int) (md rd : Pairs) (los his : List (Option Rat)) (w : List Rat)
+    (o1 o2 : List Nat) (h1 : md ≠ [] → topoSort (swapPairs md) = some o1)
+    (h2 : rd ≠ [] → topoSort (swapPairs rd) = some o2)
+    (hsign : ∀ k, SignOk (getM monos k) (getV w k))
+    (hmd : ∀ c ∈ md, getV w c.2 ≤ getV w c.1)
+    (hlen : w.length = (scalings monos los his).length)
+    (hsc : ∀ k, k < (scalings monos los his).length → getV (scalings monos los his) k ≠ 0)
+    (hrd : ∀ c ∈ rd, getV (scalings monos los his) c.2 * getV w c.2 ≤
+                      getV (scalings monos los his) c.1 * getV w c.1) :
+    projectPre monos md rd los his w = .ok w := by
+  have e1 : signClip monos w = w := signClip_fix monos w hsign
+  have f1 : Feasible (swapPairs md) w := fun c hc => hmd (c.2, c.1) (mem_swapPairs.mp hc)
+  have hws : ∀ k, getV (mulV w (scalings monos los his)) k = getV w k * getV (scalings monos los his) k :=
+    fun k => getV_zipWith (· * ·) (by simp) _ _ hlen k
+  have f2 : Feasible (swapPairs rd) (mulV w (scalings monos los his)) := by
+    intro c hc
+    have := hrd (c.2, c.1) (mem_swapPairs.mp hc)
+    rw [hws, hws]; simp only at this; linarith [mul_comm (getV w c.1) (getV (scalings monos los his) c.1),
+      mul_comm (getV w c.2) (getV (scalings monos los his) c.2)]
+  have hdiv : divV (mulV w (scalings monos los his)) (scalings monos los his) = w := by
+    apply List.ext_getElem (by simp [divV, mulV, hlen])
+    intro k hk1 hk2
+    have hk : k < w.length := hk2
+    have hks : k < (scalings monos los his).length := hlen ▸ hk
+    simp only [divV, mulV, List.getElem_zipWith]
+    have := hsc k hks
+    simp only [getV, List.getD, List.getElem?_eq_getElem hks, Option.getD_some] at this
+    exact mul_div_cancel_right₀ _ this
+  unfold projectPre
+  simp only [e1, bind, Except.bind, pure, Except.pure]
+  by_cases hm : md = []
+  · subst hm
+    by_cases hr : rd = []
+    · subst hr; simp
+    · have hne : rd.isEmpty = false := by cases rd <;> simp_all
+      simp [hne, approxProject, h2 hr, approxProjectWith_fix f2, hdiv]
+  · have hne1 : md.isEmpty = false := by cases md <;> simp_all
+    by_cases hr : rd = []
+    · subst hr; simp [hne1, approxProject, h1 hm, approxProjectWith_fix f1]
+    · have hne : rd.isEmpty = false := by cases rd <;> simp_all
+      simp [hne1, hne, approxProject, h1 hm, h2 hr, approxProjectWith_fix f1, approxProjectWith_fix f2, hdiv]
+
+/-! ### non-vacuity: a concrete diamond satisfies the hypotheses and is genuinely moved -/
+example : validOrder [(0, 1), (0, 2), (1, 3), (2, 3)] ((topoSort [(0, 1), (0, 2), (1, 3), (2, 3)]).getD []) = true := by
+  decide
+example : Categorical.project (some 0) (some 1) [(0, 1), (0, 2), (1, 3), (2, 3)] [5, 1, 2, -3]
+    ≠ .ok [5, 1, 2, -3] := by decide +kernel
+example : feasibleB [(0, 1), (0, 2), (1, 3), (2, 3)]
+    (match Categorical.project (some 0) (some 1) [(0, 1), (0, 2), (1, 3), (2, 3)] [5, 1, 2, -3] with
+      | .ok o => o | .error _ => []) = true := by decide +kernel
+
 end Tfl.C06
